@@ -17,7 +17,8 @@ RULE = ("streams of 1-8 frames. Beast: types '1' Mode-AC, '2' short, '3' long, '
         "Driver: client.buffer.extend(chunk) then the reader, as run() does. Oracle: expected list computed from the generating frames and the documented "
         "DF/length admission; after every read the output so far is a prefix of it, contains every admissible frame whose successor start has been "
         "delivered, and equals it at the end; both Beast readers. NetSource.handle_messages with a stub pipe: everything sent + local buffers == long "
-        "DF17/18 resp. DF20/21 messages handed in, in order, once. non-trivial = a cut strictly inside a frame (Beast: adjacent to / inside an escaped pair)")
+        "DF17/18 resp. DF20/21 messages handed in, in order, once. non-trivial = a cut strictly inside a frame (Beast: adjacent to / inside an escaped pair)"
+        ' Also: reader output fed to NetSource under several segmentations with frames repeated back to back (leg pipeline), TcpClient.run() itself on a scripted socket with receive timeouts between pieces (leg run_loop), stretches of 200-1500 Comm-B messages and duplicates with equal time stamps in the NetSource / RtlSdrSource leg, a libFuzzer campaign in the thorough tier.')
 ASSUMPTIONS = ["wall-clock timestamps attached by the Beast/raw readers are ignored; Skysense timestamps are compared with the record's own field",
                "a Beast frame counts as completely received once the next <esc> and its type byte have been delivered",
                "the zmq socket is not involved: the harness owns the chunking"]
